@@ -85,9 +85,15 @@ func vSameDump(a, b *DB, kp *vPool, id string) {
 			ia.Next()
 			ib.Next()
 		}
-		if len(kp.keys) > 0 {
-			ia.Seek(kp.keys[len(kp.keys)-1])
-			ib.Seek(kp.keys[len(kp.keys)-1])
+		for ti := range kp.keys {
+			// (Seek on an exhausted iterator is a no-op, so reposition from a rewound one; every pool key as target)
+			ia.Rewind()
+			ib.Rewind()
+			ia.Seek(kp.keys[ti])
+			ib.Seek(kp.keys[ti])
+			if ia.Valid() {
+				verifReach("seek-positioned")
+			}
 			for ia.Valid() || ib.Valid() {
 				verifAssert(ia.Valid() == ib.Valid(), id+".seek-iter-length-differs")
 				if !ia.Valid() || !ib.Valid() {
